@@ -2,13 +2,14 @@
 //!
 //! script: `nmod L (owner size){L/2} op*` with
 //!   op = 1 a b l   a.connect(b, channel) ; l = 0 no channel, else latency l-1 ns (bitrate 0, jitter 0)
+//!      | 9 a b l br  as 1 with bitrate br bit/s (0 if 576e9/br is not a whole number of ns)
 //!      | 2 g kind | 3 g next_gate | 4 g path_end | 5 g path_iter
 //!      | 6 g t d   at time t the owner of gate g calls send_at(msg, g, t+d)
 //!      | 7 g g' d  forwarding rule: the module that receives a message through gate g (header.last_gate)
 //!                  sends THE RECEIVED Message object on gate g' after d ns (g' = g: echo back)
 //!      | 8 g t d b as 6, the message may be relayed min(b,8) times (budget and leg number travel in the content)
 //! Output per op: connect -> 1 | kind -> 2 k | next_gate -> 3 h+1|0 | path_end -> 4 h+1|0 |
-//!   path_iter -> 5 0 (transit) | 5 1 n (gate chan+1|0){n} | send -> 6 | rule -> 14 | unknown gate -> 7 | panic -> 9 site
+//!   path_iter -> 5 0 (transit) | 5 1 n (gate latency+1|0 bitrate){n} | send -> 6 | rule -> 14 | unknown gate -> 7 | panic -> 9 site
 //! then, after running the simulation, one record per handled message sorted by (send number k, leg):
 //!   11 k leg receiving-module now-ns sender-module receiver-module last_gate+1|0
 //!   12 k leg 3  (send/send_at panicked: transit gate)
@@ -70,6 +71,8 @@ struct Node {
     sh: Arc<Mutex<Shared>>,
 }
 
+/// every payload message is 72 bytes long (64 header + u64 content)
+const MSG_BITS: u64 = 576;
 const TRIGGER: u16 = 1;
 const PAYLOAD: u16 = 2;
 
@@ -86,6 +89,10 @@ impl Node {
         };
         // content: relay budget << 8 | leg number
         let msg = Message::default().kind(PAYLOAD).id(k as u16).with_content(b << 8);
+        if msg.length() as u64 * 8 != MSG_BITS {
+            // the transmission times of the model assume this length
+            self.sh.lock().unwrap().log.push(vec![k, 0, 15, msg.length() as u64]);
+        }
         let r = catch_unwind(AssertUnwindSafe(|| {
             if d == 0 {
                 send(msg, gate)
@@ -228,7 +235,7 @@ fn run_script(nums: &[u64]) -> Vec<u64> {
         let tag = cur.peek().unwrap();
         let need = match tag {
             1 | 6 | 7 => 4,
-            8 => 5,
+            8 | 9 => 5,
             2..=5 => 2,
             _ => break,
         };
@@ -237,10 +244,13 @@ fn run_script(nums: &[u64]) -> Vec<u64> {
         }
         cur.next();
         match tag {
-            1 => {
+            1 | 9 => {
                 let a = cur.next() as usize;
                 let b = cur.next() as usize;
                 let l = cur.next();
+                // bitrates whose transmission time for the 72-byte message is not a whole number of ns are read as 0
+                let br = if tag == 9 { cur.next() } else { 0 };
+                let br = if br != 0 && (MSG_BITS as u128 * 1_000_000_000) % br as u128 == 0 { br } else { 0 };
                 if a >= gates.len() || b >= gates.len() {
                     out.push(7);
                     continue;
@@ -249,7 +259,7 @@ fn run_script(nums: &[u64]) -> Vec<u64> {
                     None
                 } else {
                     Some(Channel::new(ChannelMetrics {
-                        bitrate: 0,
+                        bitrate: br as usize,
                         latency: Duration::from_nanos(l - 1),
                         jitter: Duration::ZERO,
                         drop_behaviour: ChannelDropBehaviour::Drop,
@@ -288,6 +298,7 @@ fn run_script(nums: &[u64]) -> Vec<u64> {
                             for c in cons {
                                 v.push(gidx(&c.endpoint));
                                 v.push(c.channel().map_or(0, |ch| ch.metrics().latency.as_nanos() as u64 + 1));
+                                v.push(c.channel().map_or(0, |ch| ch.metrics().bitrate as u64));
                             }
                             v
                         }
